@@ -198,7 +198,7 @@ pub fn plan(id: &str) -> Option<Plan> {
             id: "C08",
             level: "fault_enumeration",
             profiles: vec![AUTH],
-            quick_runs: 1000,
+            quick_runs: 1500,
             thorough_runs: 8_000,
             rule: "two-group worlds running market, transaction-shape and administrator activity; for each sampled accepted transaction (<= 60 per run, biased to instruction kinds not yet swept) EVERY single mutation is executed on a fork: each role-signer slot unsigned and re-signed by every identity in the world, each bound slot replaced by each applicable foreign twin (other group/bank/vault/authority PDA, byte-identical clone owned by another program, clone at a wrong address, wrong account type, other token program, fake sysvar, other stored destination); one evaluation = one mutation; distinct = ix kind x slot x mutation kind x verdict",
         },
